@@ -180,6 +180,7 @@ type Ctx struct {
 	chanUndo   []*Chan
 	allocLimit *Term
 	cur        *Frame
+	obl        [4]int
 }
 
 func (c *Ctx) hasSymbolic(args []Value) bool {
@@ -579,11 +580,11 @@ func (c *Ctx) obligation(fr *Frame, bad *Term, kind, msg string) {
 		bad = c.tb.And(c.guard, bad)
 	}
 	if bad.IsFalse() {
-		c.w.countObl(0)
+		c.countObl(0)
 		return
 	}
 	if v, ok := c.lookupKnown(bad); ok && !v {
-		c.w.countObl(0)
+		c.countObl(0)
 		return
 	}
 	if c.initMode > 0 {
@@ -607,12 +608,12 @@ func (c *Ctx) obligation(fr *Frame, bad *Term, kind, msg string) {
 	r, model := c.solver.Check(bad, wants)
 	switch r {
 	case "unsat":
-		c.w.countObl(1)
+		c.countObl(1)
 	case "sat":
-		c.w.countObl(2)
+		c.countObl(2)
 		c.recordViolation(fr, kind, msg, model)
 	default:
-		c.w.countObl(3)
+		c.countObl(3)
 		fn, site := c.site(fr)
 		c.w.noteUndischarged(kind + " @ " + fn + " : " + site)
 	}
@@ -633,7 +634,7 @@ func (c *Ctx) violation(kind string, fr *Frame, msg string) {
 	if c.replaying() {
 		return
 	}
-	c.w.countObl(2)
+	c.countObl(2)
 	var wants []*Term
 	for _, in := range c.inputs {
 		wants = append(wants, in.T)
@@ -675,21 +676,8 @@ func (c *Ctx) recordViolation(fr *Frame, kind, msg string, model map[*Term]uint6
 	c.w.violations[v.Sig()] = v
 }
 
-func (w *World) countObl(k int) {
-	w.mu.Lock()
-	w.stats.Obligations++
-	switch k {
-	case 0:
-		w.stats.Folded++
-		w.stats.Discharged++
-	case 1:
-		w.stats.Discharged++
-	case 2:
-		w.stats.Violated++
-	case 3:
-		w.stats.Undischarged++
-	}
-	w.mu.Unlock()
+func (c *Ctx) countObl(k int) {
+	c.obl[k]++
 }
 
 func (w *World) noteUndischarged(s string) {
@@ -824,6 +812,8 @@ func (c *Ctx) verifCall(fr *Frame, fn *ssa.Function, args []Value) (Value, bool)
 	case "verifAllocBudget":
 		c.allocLimit = args[0].(*Term)
 		return nil, true
+	case "verifIteString":
+		return c.iteVal(args[0].(*Term), args[1], args[2]), true
 	case "verifIte64":
 		return tb.Ite(args[0].(*Term), args[1].(*Term), args[2].(*Term)), true
 	}
@@ -1162,6 +1152,11 @@ func (w *World) worker(id int, wg *sync.WaitGroup) {
 		return
 	}
 	w.mu.Lock()
+	w.stats.Obligations += c.obl[0] + c.obl[1] + c.obl[2] + c.obl[3]
+	w.stats.Folded += c.obl[0]
+	w.stats.Discharged += c.obl[0] + c.obl[1]
+	w.stats.Violated += c.obl[2]
+	w.stats.Undischarged += c.obl[3]
 	w.stats.Queries += c.solver.Queries
 	w.stats.SolverNs += int64(c.solver.Time)
 	w.stats.SolverUnknown += c.solver.Unknown
